@@ -1,5 +1,5 @@
 """Property -> rules registry."""
-from .rules import kernel, incr, rot, sched, meas, integrator, kal
+from .rules import kernel, incr, rot, sched, meas, integrator, kal, purity
 
 PROPS = {
     'C01': dict(
@@ -111,6 +111,17 @@ PROPS = {
                  'step passed equals the interval of the averaged states'],
         undecided=['exactness of scipy.linalg.expm', 'symmetry/PSD of the computed product in '
                    'floating point', 'composition over partitions (numerical)']),
+    'C19': dict(
+        rules=[purity.pur_rules, purity.rng_src, purity.sch_rules],
+        decided=['no public callable writes into an argument, a constructor-argument field or a '
+                 'shared constant (may-alias effect analysis with interprocedural summaries; '
+                 'pandas-3 copy-on-write model)',
+                 'every random draw comes from check_random_state(<parameter>); no hidden '
+                 'non-determinism source', 'documented column sets of returned/consumed tables'],
+        undecided=['bit-identical repeat results (needs library determinism)',
+                   'agreement between scalar/stacked/list/array/table forms of one input'],
+        assumptions=['pandas >= 3 copy-on-write semantics (measured in this sandbox); calls '
+                     'listed under assumed_read_only_calls do not write their arguments']),
 }
 
 
